@@ -307,21 +307,37 @@ def PostOk (post : List Char) : Prop :=
   post = [] ∨ (∃ x r, post = x :: r ∧ isUpper x = false ∧ isLower x = false) ∨
   (∃ x y r, post = x :: y :: r ∧ isUpper x = true ∧ isLower y = true)
 
+theorem upper_not_lower_any (x : Char) (hx : isUpper x = true) : isLower x = false := by
+  simp only [isUpper, isLower, Bool.and_eq_true, decide_eq_true_eq] at hx ⊢
+  simp only [Bool.and_eq_false_iff, decide_eq_false_iff_not]
+  left
+  intro h
+  have h1 := Char.le_def.mp h
+  have h2 := Char.le_def.mp hx.2
+  have : ('a' : Char).val ≤ ('Z' : Char).val := Nat.le_trans h1 h2
+  exact absurd this (by decide)
+
+/-- after the run: the word starts do not depend on the character before `post` -/
+theorem starts_post (post : List Char) (hp : PostOk post) (pa pb : Char) :
+    wordStartsAux pa post = wordStartsAux pb post := by
+  rcases hp with rfl | ⟨x, r, rfl, hx, _⟩ | ⟨x, y, r, rfl, hx, hy⟩
+  · rfl
+  · rw [wordStartsAux_cons, wordStartsAux_cons, hx]; simp
+  · rw [wordStartsAux_cons pa, wordStartsAux_cons pb]
+    simp [nextLower, hy]
+
+theorem nextLower_post (post : List Char) (hp : PostOk post) : nextLower post = false := by
+  rcases hp with rfl | ⟨x, r, rfl, _, hx⟩ | ⟨x, y, r, rfl, hx, _⟩
+  · rfl
+  · simpa [nextLower] using hx
+  · simpa [nextLower] using upper_not_lower_any x hx
+
 /-- the tail of an all-caps run against its lower-cased spelling: same word starts (none inside the run) -/
 theorem starts_run (us post : List Char) (hus : ∀ u ∈ us, isUpper u = true) (hau : Ascii us) (hp : PostOk post)
-    (pa pb : Char) (hpa : isLower pa = false) (hpb : post ≠ [] → (isLower pa = false ∧ (us = [] → isLower pb = isLower pa ∨ True))) :
-    (us ≠ [] ∨ isLower pb = isLower pa ∨ (∃ x y r, post = x :: y :: r ∧ isUpper x = true ∧ isLower y = true) ∨
-      (∃ x r, post = x :: r ∧ isUpper x = false) ∨ post = []) →
+    (pa pb : Char) (hpa : isLower pa = false) :
     wordStartsAux pa (us ++ post) = wordStartsAux pb (us.map toLower ++ post) := by
-  intro _
   induction us generalizing pa pb with
-  | nil =>
-    simp only [List.nil_append, List.map_nil]
-    rcases hp with rfl | ⟨x, r, rfl, hx, _⟩ | ⟨x, y, r, rfl, hx, hy⟩
-    · rfl
-    · rw [wordStartsAux_cons, wordStartsAux_cons, hx]; simp
-    · rw [wordStartsAux_cons, wordStartsAux_cons]
-      simp [nextLower, hy]
+  | nil => exact starts_post post hp pa pb
   | cons u us ih =>
     have hu : isUpper u = true := hus u List.mem_cons_self
     have hua : u.toNat < 128 := hau u List.mem_cons_self
@@ -329,33 +345,85 @@ theorem starts_run (us post : List Char) (hus : ∀ u ∈ us, isUpper u = true) 
     rw [wordStartsAux_cons, wordStartsAux_cons]
     have hnl : nextLower (us ++ post) = false := by
       cases us with
-      | nil =>
-        simp only [List.nil_append]
-        rcases hp with rfl | ⟨x, r, rfl, _, hx⟩ | ⟨x, y, r, rfl, hx, _⟩
-        · rfl
-        · simpa [nextLower] using hx
-        · have : isLower x = false := by
-            -- an upper-case letter is not lower-case; `x` need not be ASCII, so argue from the definitions
-            simp only [isUpper, isLower, Bool.and_eq_true, decide_eq_true_eq] at hx ⊢
-            simp only [Bool.and_eq_false_iff, decide_eq_false_iff_not]
-            left
-            intro h
-            have h1 := Char.le_def.mp h
-            have h2 := Char.le_def.mp hx.2
-            have : ('a' : Char).val ≤ ('Z' : Char).val := Nat.le_trans h1 h2
-            exact absurd this (by decide)
-          simpa [nextLower] using this
+      | nil => simpa using nextLower_post post hp
       | cons u2 us2 =>
-        have := upper_not_lower u2 (hau u2 (by simp)) (hus u2 (by simp))
+        have := upper_not_lower_any u2 (hus u2 (by simp))
         simpa [nextLower] using this
     have hb : isUpper (toLower u) = false := lower_not_upper u hua
     simp only [hnl, hpa, Bool.or_false, Bool.and_false, hb, Bool.false_and]
     congr 1
-    exact ih (fun x hx => hus x (List.mem_cons_of_mem _ hx)) (ascii_tail hau) u (toLower u)
-      (upper_not_lower u hua hu) (fun _ => ⟨upper_not_lower u hua hu, fun _ => Or.inr trivial⟩) (Or.inr (Or.inr (by
-        rcases hp with h | ⟨x, r, h, hx, _⟩ | h
-        · exact Or.inr (Or.inr h)
-        · exact Or.inr (Or.inl ⟨x, r, h, hx⟩)
-        · exact Or.inl h)))
+    exact ih (fun x hx => hus x (List.mem_cons_of_mem _ hx)) (ascii_tail hau) u (toLower u) (upper_not_lower_any u hu)
+
+/-- the part before the run: identical on both sides, and the run's first letter starts a word in both
+    spellings because a lower-case letter precedes it -/
+theorem starts_pre (pre : List Char) (U : Char) (ta tb : List Char) (prev : Char)
+    (hU : isUpper U = true) (hl : isLower (lastCh prev pre) = true)
+    (ht : wordStartsAux U ta = wordStartsAux U tb) :
+    wordStartsAux prev (pre ++ U :: ta) = wordStartsAux prev (pre ++ U :: tb) := by
+  induction pre generalizing prev with
+  | nil =>
+    simp only [lastCh] at hl
+    simp only [List.nil_append]
+    rw [wordStartsAux_cons, wordStartsAux_cons, ht]
+    simp [hU, hl]
+  | cons p pre ih =>
+    simp only [List.cons_append]
+    rw [wordStartsAux_cons, wordStartsAux_cons]
+    have hn : nextLower (pre ++ U :: ta) = nextLower (pre ++ U :: tb) := by
+      cases pre <;> rfl
+    rw [hn, ih p (by simpa [lastCh] using hl)]
+
+/-- b is a with the non-initial letters of ONE all-caps run (length ≥ 2) lower-cased: `ID~Id`,
+    `LoadXML~LoadXml`, `HTTPServer~HttpServer`. The run starts the name or follows a lower-case letter
+    (after Pascal-casing), and is followed by nothing, a non-letter, or a capitalised word. -/
+def AcronymStep (a b : List Char) : Prop :=
+  ∃ pre U us post, a = pre ++ U :: us ++ post ∧ b = pre ++ U :: us.map toLower ++ post ∧
+    isUpper U = true ∧ us ≠ [] ∧ (∀ u ∈ us, isUpper u = true) ∧ PostOk post ∧
+    (pre = [] ∨ ∃ q qs, upFirst pre = q :: qs ∧ isLower (lastCh q qs) = true)
+
+/-- purely syntactic "equal up to acronym casing" (one run, either direction) -/
+def acronymVariant (a b : List Char) : Prop := AcronymStep a b ∨ AcronymStep b a
+
+theorem upFirst_append (pre rest : List Char) (h : pre ≠ []) : upFirst (pre ++ rest) = upFirst pre ++ rest := by
+  cases pre with
+  | nil => exact absurd rfl h
+  | cons p ps => rfl
+
+theorem sameWords_of_step (a b : List Char) (ha : Ascii a) (h : AcronymStep a b) : sameWords a b = true := by
+  obtain ⟨pre, U, us, post, rfl, rfl, hU, hne, hus, hp, hpre⟩ := h
+  have hau : Ascii us := fun x hx => ha x (by simp [hx])
+  have hUa : U.toNat < 128 := ha U (by simp)
+  have hlen : (pre ++ U :: us ++ post).length = (pre ++ U :: us.map toLower ++ post).length := by simp
+  have hfold : equalFoldL (pre ++ U :: us ++ post) (pre ++ U :: us.map toLower ++ post) = true := by
+    simp only [equalFoldL, List.map_append, List.map_cons, List.map_map, beq_iff_eq]
+    congr 3
+    apply List.map_congr_left
+    intro u hu
+    simp only [Function.comp_apply]
+    exact (lower_lower u (hau u hu)).symm
+  simp only [sameWords, Bool.and_eq_true, beq_iff_eq]
+  refine ⟨⟨hlen, hfold⟩, ?_⟩
+  have hrun : ∀ p, wordStartsAux U (us ++ post) = wordStartsAux p (us.map toLower ++ post) :=
+    fun p => starts_run us post hus hau hp U p (upper_not_lower_any U hU)
+  rcases hpre with rfl | ⟨q, qs, hq, hl⟩
+  · simp only [List.nil_append, List.cons_append, upFirst, wordStarts]
+    rw [upper_of_isUpper U hUa hU]
+    exact hrun U
+  · have hpne : pre ≠ [] := by
+      intro e; subst e; simp [upFirst] at hq
+    have e1 : upFirst (pre ++ U :: us ++ post) = q :: (qs ++ U :: (us ++ post)) := by
+      rw [List.append_assoc, upFirst_append _ _ hpne, hq]; simp
+    have e2 : upFirst (pre ++ U :: us.map toLower ++ post) = q :: (qs ++ U :: (us.map toLower ++ post)) := by
+      rw [List.append_assoc, upFirst_append _ _ hpne, hq]; simp
+    rw [e1, e2]
+    simp only [wordStarts]
+    exact starts_pre qs U _ _ q hU hl (hrun U)
+
+/-- symmetry of the spec relation -/
+theorem sameWords_symm (a b : List Char) : sameWords a b = sameWords b a := by
+  simp only [sameWords, equalFoldL]
+  rw [Bool.eq_iff_iff]
+  simp only [Bool.and_eq_true, beq_iff_eq]
+  constructor <;> rintro ⟨⟨h1, h2⟩, h3⟩ <;> exact ⟨⟨h1.symm, h2.symm⟩, h3.symm⟩
 
 end ShootVerif.Mapper
